@@ -26,7 +26,7 @@ ASSUMPTIONS = [
     "grouping after filter_by_ids is compared modulo empty suites (removed tests are replaced by empty suites)",
 ]
 
-IDS = ["t%d" % i for i in range(8)] + ["mod.Class.test_x", "é.test", ""]
+IDS = ["t%d" % i for i in range(8)] + ["mod.Class.test_x", "é.test", "", "\u00a0nbsp.test", "wide.test\u3000"]   # the last two begin / end with non-ASCII white space
 KINDS = ["plain", "plain", "sub", "sorting", "filtering"]
 
 
